@@ -42,7 +42,9 @@ type PipelineRunner struct {
 	persistRequests chan struct{}
 
 	// Mutex for reading or writing jobs and job state
-	mx               sync.RWMutex
+	mx sync.RWMutex
+	// saveMx serializes SaveToStore calls (persist loop, explicit saves and the final save of Shutdown)
+	saveMx           sync.Mutex
 	createTaskRunner func(j *PipelineJob) taskctl.Runner
 
 	// Wait group for waiting for asynchronous operations like job.Cancel
@@ -719,8 +721,10 @@ func (r *PipelineRunner) initialLoadFromStore() error {
 }
 
 func (r *PipelineRunner) SaveToStore() {
-	r.wg.Add(1)
-	defer r.wg.Done()
+	// Saves are serialized, so the final save of Shutdown waits for a save that is still in progress.
+	// (Registering the save in r.wg instead is not possible: wg.Add may not run concurrently with the wg.Wait of Shutdown.)
+	r.saveMx.Lock()
+	defer r.saveMx.Unlock()
 
 	log.
 		WithField("component", "runner").
